@@ -94,8 +94,9 @@ def run(ctx):
             structural = set(f["n"] for f in l["fixes"]) | set(c03_disc(l))
             chosen = {}
             for e in l["lay"]:
-                # reserved flags are not exposed but are accepted as keywords (only those whose name is unique in the message)
-                hidden_flag = e["k"] == "x" and e["x"] == 0 and l["pbf"] and sum(1 for y in l["lay"] if y["n"] == e["n"]) == 1
+                # reserved flags are no attributes: they are not exposed and take no keyword (a few are still offered one: whatever
+                # the value, nothing in the payload may move - the judge treats the name as not part of the message)
+                hidden_flag = e["k"] == "x" and e["x"] == 0 and l["pbf"] and sum(1 for y in l["lay"] if y["n"] == e["n"]) == 1 and li % 9 == 0
                 if (e["x"] != 1 and not hidden_flag) or e["k"] == "cfg" or e["n"].startswith("_HP"):
                     continue
                 key = (e["k"], e["t"][:1] if e["k"] == "f" else "", e["sc"], "_" in e["n"], e["n"] in structural, hidden_flag)
@@ -115,6 +116,13 @@ def run(ctx):
                                    "synth": [] if l["pbf"] else sorted({x["n"] for x in l["lay"] if x["k"] == "f" and x["t"][:1] == "X" and x["x"] == 1})})
 
     run_batch(ctx, MODULE, CFG, gen(), build.OBSERVERS, sigfn, negfn, chunk=6000)
+
+    # a sample of the same cases in child interpreters started with -O / -OO, another hash seed, time zone and locale variables
+    from . import run_opt
+
+    _pool = [i for o, i in gen() if o == "c15"]
+    ctx.rng.shuffle(_pool)
+    run_opt(ctx, MODULE, CFG, "build:c15", _pool[: (3000 if ctx.thorough else 800)], sigfn)
     ctx.exhaustive = False
 
 
